@@ -173,6 +173,12 @@ class USym(UBase):
         self.records.append((label, st, None, kn))
         return st
 
+    def lemma(self, label, build):
+        """pure logic obligation: build(z3) returns a closed z3 formula that must be valid"""
+        st = ctx().prove("lemma: " + label, build(z3))
+        self.records.append((label, st, None, []))
+        return st
+
     def cover(self, label):
         """reachability marker (vacuity guard): recorded when some feasible path gets here"""
         self.records.append(("cover:" + label, "reached", None, []))
@@ -260,7 +266,7 @@ class UConc(UBase):
         return options[i]
 
     def stream(self, data, pos=0):
-        s = io.BytesIO(bytes(data))
+        s = io.BufferedReader(io.BytesIO(bytes(data)))  # what DEX/APK code really reads from
         s.seek(pos)
         return s
 
@@ -278,6 +284,9 @@ class UConc(UBase):
         return st
 
     def cover(self, label):
+        pass
+
+    def lemma(self, label, build):
         pass
 
     def fail(self, label, **show):
